@@ -47,7 +47,15 @@ VALUE_ALPHABET = "abcxyzXYZ0123456789    -_./:,=+*'\"[](){}<>@!?&|~^#;\\"
 COMMON_VALUES = ["1g", "4g", "true", "false", "-XX:+UseG1GC", "0.0.0.0", "9200", "", "a b", "x=y:z"]
 TEXT_ALPHABET = "abcdeXYZ0189      ::--__..##//\"'=[],*+\n\n\n\néü日"
 
-DATA_RELS = {"home": ["data", "data/nodes", "var/es data"], "node": ["data", "data/0"], "out": ["d0", "d1", "d0/inner", "ssd/es"]}
+DATA_RELS = {
+    "home": ["data", "data/nodes", "var/es data"],
+    "node": ["data", "data/0"],
+    "out": ["d0", "d1", "d0/inner", "ssd/es"],
+    # next to the installation: the path starts with the characters of the installation's path without lying inside it ("beside"),
+    # or is written through the installation ("via": <home>/../<rel>)
+    "beside": ["-data", "_data/0", ".d"],
+    "via": ["data-next-to-home", "x/data"],
+}
 
 ini_value = st.sampled_from(COMMON_VALUES) | st.text(alphabet=VALUE_ALPHABET, max_size=12).map(lambda s: s.strip())
 param_value = ini_value | st.integers(-5, 70000) | st.booleans() | st.none() | st.sampled_from([1.5, 0.25])
@@ -64,7 +72,7 @@ def _vars(draw, pool, max_size):
 
 @st.composite
 def _data_spec(draw):
-    loc = draw(st.sampled_from(["home", "node", "out", "out"]))
+    loc = draw(st.sampled_from(["home", "node", "out", "out", "out", "beside", "via"]))
     return {"loc": loc, "rel": draw(st.sampled_from(DATA_RELS[loc])), "slash": draw(st.integers(0, 5)) == 0}
 
 
